@@ -1,12 +1,19 @@
 use crate::driver::Prop;
 
+pub mod c15;
+pub mod c16;
 pub mod c19;
+pub mod world_props;
 
 pub fn all() -> Vec<Box<dyn Prop>> {
-    vec![Box::new(c19::C19)]
-}
-pub mod c16 {
-    pub fn worker_main() -> i32 {
-        2
-    }
+    vec![
+        Box::new(world_props::C03),
+        Box::new(world_props::C04),
+        Box::new(world_props::C05),
+        Box::new(world_props::C14),
+        Box::new(c15::C15),
+        Box::new(c16::C16),
+        Box::new(c19::C19),
+        Box::new(world_props::C20),
+    ]
 }
